@@ -355,6 +355,34 @@ def probe(tier, seed):
                         fails.append(F("C19.frozen_mutable", cls=cname, call=name, args=repr(args), raised=type(exc).__name__ if exc else None, changed=changed))
                         if changed:
                             G = dn.freeze(copy.deepcopy(G0))
+            # graphs derived from a frozen graph are graphs in their own right: freezing them must freeze them
+            Gf = dn.freeze(copy.deepcopy(G0))
+            derivs = [("to_directed", lambda g: g.to_directed()) if not G0.is_directed() else ("to_undirected", lambda g: g.to_undirected()),
+                      ("time_slice", lambda g: g.time_slice(0, 5)), ("create_empty_copy", lambda g: dn.create_empty_copy(g)),
+                      ("deepcopy", lambda g: copy.deepcopy(g))]
+            for dname, fn in derivs:
+                try:
+                    H = fn(Gf)
+                except Exception:  # noqa
+                    continue
+                n_calls += 1
+                try:
+                    dn.freeze(H)
+                except Exception as ex:  # noqa
+                    fails.append(F("C19.freeze_raised", cls=cname, derived=dname, got=type(ex).__name__)); continue
+                if not dn.is_frozen(H):
+                    fails.append(F("C19.is_frozen", cls=cname, derived=dname))
+                for mname, margs in (("add_node", (987,)), ("add_nodes_from", ([988],)), ("clear", ())):
+                    before = internal(H)
+                    exc = None
+                    try:
+                        getattr(H, mname)(*margs)
+                    except Exception as ex:  # noqa
+                        exc = ex
+                    if exc is None or internal(H) != before:
+                        fails.append(F("C19.frozen_mutable", cls=cname, call=mname, derived_from_frozen=dname,
+                                       raised=type(exc).__name__ if exc else None, changed=internal(H) != before))
+                        break
     return rows, fails, n_calls, samples, len(states)
 
 
